@@ -202,7 +202,7 @@ impl ArenaModel {
                 Act::Layout { fallible, size, al } => world.do_layout(fallible, size, al, script, probe),
                 Act::Typed { m, ty } => world.do_typed(m, ty, script, probe),
                 Act::TryWith { fallible, ty, ok, inner, probe: p } => world.do_try_with(fallible, ty, ok, inner, p, script),
-                Act::Slice { m, el, len, fail_at } => world.do_slice(m, el, len, fail_at, script, probe),
+                Act::Slice { m, el, len, fail_at, inner } => world.do_slice(m, el, len, fail_at, inner, script, probe),
                 Act::Str { fallible, len } => world.do_str(fallible, len, script, probe),
                 Act::Allocate { size, al } => world.do_allocate(size, al, script),
                 Act::Dealloc { h } => world.do_dealloc(h),
@@ -326,13 +326,15 @@ impl ArenaModel {
                     for m in ALL_SM {
                         for (el, len) in [(El::U8, 5usize), (El::U64, 3), (El::B3, 2), (El::Unit, 4), (El::U16, 0), (El::U128, 1), (El::U8, cap + 1), (El::U64, cap / 8)] {
                             let init = matches!(m, SM::InitTryFillWith | SM::InitTryFillIter);
-                            a.push(Act::Slice { m, el, len, fail_at: NO_FAIL });
+                            a.push(Act::Slice { m, el, len, fail_at: NO_FAIL, inner: Inner::Nothing });
                             if init && len > 0 {
-                                a.push(Act::Slice { m, el, len, fail_at: 0 });
-                                a.push(Act::Slice { m, el, len, fail_at: (len - 1).min(200) as u8 });
+                                a.push(Act::Slice { m, el, len, fail_at: 0, inner: Inner::Nothing });
+                                a.push(Act::Slice { m, el, len, fail_at: (len - 1).min(200) as u8, inner: Inner::Nothing });
                             }
                         }
                     }
+                    a.push(Act::Slice { m: SM::InitTryFillWith, el: El::U64, len: 3, fail_at: 1, inner: Inner::AllocKeep });
+                    a.push(Act::Slice { m: SM::InitTryFillWith, el: El::U8, len: 5, fail_at: 2, inner: Inner::AllocRelease });
                     for len in [0usize, 1, 7, cap, cap + 1] {
                         a.push(Act::Str { fallible: false, len });
                         a.push(Act::Str { fallible: true, len });
@@ -350,9 +352,9 @@ impl ArenaModel {
                     a.push(Act::Typed { m: TM::TryAllocWith, ty: Ty::B3 });
                     a.push(Act::Typed { m: TM::Alloc, ty: Ty::A32 });
                     a.push(Act::Typed { m: TM::Alloc, ty: Ty::Z64 });
-                    a.push(Act::Slice { m: SM::Copy, el: El::U8, len: 5, fail_at: NO_FAIL });
-                    a.push(Act::Slice { m: SM::InitTryFillWith, el: El::U64, len: 3, fail_at: 1 });
-                    a.push(Act::Slice { m: SM::FillIter, el: El::U16, len: 3, fail_at: NO_FAIL });
+                    a.push(Act::Slice { m: SM::Copy, el: El::U8, len: 5, fail_at: NO_FAIL, inner: Inner::Nothing });
+                    a.push(Act::Slice { m: SM::InitTryFillWith, el: El::U64, len: 3, fail_at: 1, inner: Inner::Nothing });
+                    a.push(Act::Slice { m: SM::FillIter, el: El::U16, len: 3, fail_at: NO_FAIL, inner: Inner::Nothing });
                     a.push(Act::Str { fallible: false, len: 7 });
                     a.push(Act::TryWith { fallible: false, ty: Ty::U64, ok: false, inner: Inner::Nothing, probe: false });
                     a.push(Act::TryWith { fallible: false, ty: Ty::U64, ok: false, inner: Inner::AllocKeep, probe: false });
@@ -367,7 +369,7 @@ impl ArenaModel {
                 a.push(Act::Typed { m: TM::TryAlloc, ty: Ty::A4096 });
                 a.push(Act::TryWith { fallible: false, ty: Ty::B449, ok: false, inner: Inner::Nothing, probe: false });
                 a.push(Act::TryWith { fallible: true, ty: Ty::B449, ok: false, inner: Inner::ForceChunk, probe: false });
-                a.push(Act::Slice { m: SM::InitTryFillWith, el: El::U64, len: cap / 8 + 1, fail_at: 0 });
+                a.push(Act::Slice { m: SM::InitTryFillWith, el: El::U64, len: cap / 8 + 1, fail_at: 0, inner: Inner::Nothing });
                 self.allocator_acts(&mut a, nraw, &raw_sz, cap, false);
                 a.push(Act::Reset { probe: false });
                 a.push(Act::SetLimit { some: true, val: held_usable });
@@ -384,7 +386,7 @@ impl ArenaModel {
                 a.push(Act::TryWith { fallible: false, ty: Ty::U64, ok: false, inner: Inner::Nothing, probe: false });
                 a.push(Act::TryWith { fallible: false, ty: Ty::B449, ok: false, inner: Inner::Nothing, probe: false });
                 a.push(Act::TryWith { fallible: false, ty: Ty::B449, ok: false, inner: Inner::AllocKeep, probe: false });
-                a.push(Act::Slice { m: SM::InitTryFillWith, el: El::U64, len: 3, fail_at: 1 });
+                a.push(Act::Slice { m: SM::InitTryFillWith, el: El::U64, len: 3, fail_at: 1, inner: Inner::Nothing });
                 self.allocator_acts(&mut a, nraw, &raw_sz, cap, false);
                 a.push(Act::Reset { probe: false });
                 a.push(Act::Reset { probe: true });
@@ -438,7 +440,12 @@ impl ArenaModel {
                             continue;
                         }
                         for (el, len) in [(El::U8, cap + 1), (El::U64, cap / 8 + 1), (El::U64, 3), (El::Unit, 4), (El::U128, 300), (El::U8, 2 << 20)] {
-                            a.push(Act::Slice { m, el, len, fail_at: NO_FAIL });
+                            a.push(Act::Slice { m, el, len, fail_at: NO_FAIL, inner: Inner::Nothing });
+                        }
+                    }
+                    for m in [SM::FillWith, SM::TryFillWith, SM::FillCopy, SM::TryFillCopy, SM::FillClone, SM::TryFillClone, SM::FillDefault, SM::TryFillDefault, SM::FillIter, SM::TryFillIter] {
+                        for (el, len) in [(El::U64, isize::MAX as usize / 8 + 1), (El::U16, usize::MAX), (El::U128, usize::MAX / 16), (El::B3, isize::MAX as usize / 3 + 1)] {
+                            a.push(Act::Slice { m, el, len, fail_at: NO_FAIL, inner: Inner::Nothing });
                         }
                     }
                     for len in [1usize, cap + 1, 5000] {
@@ -485,13 +492,22 @@ impl ArenaModel {
                             }
                         }
                     }
+                    for (el, len) in [(El::U8, 5usize), (El::U64, 3), (El::U8, cap.saturating_sub(30)), (El::U8, cap + 1)] {
+                        for inner in [Inner::AllocKeep, Inner::AllocRelease] {
+                            for fail_at in [1u8, NO_FAIL] {
+                                if len >= 2 {
+                                    a.push(Act::Slice { m: SM::InitTryFillWith, el, len, fail_at, inner });
+                                }
+                            }
+                        }
+                    }
                     for m in [SM::InitTryFillWith, SM::InitTryFillIter] {
                         for (el, len) in [(El::U8, 5usize), (El::U64, 3), (El::B3, 2), (El::Unit, 4), (El::U128, 1), (El::U8, cap), (El::U8, cap + 1), (El::U64, cap / 8 + 1), (El::U64, 600)] {
-                            a.push(Act::Slice { m, el, len, fail_at: NO_FAIL });
+                            a.push(Act::Slice { m, el, len, fail_at: NO_FAIL, inner: Inner::Nothing });
                             if len > 0 {
-                                a.push(Act::Slice { m, el, len, fail_at: 0 });
-                                a.push(Act::Slice { m, el, len, fail_at: (len - 1).min(200) as u8 });
-                                a.push(Act::Slice { m, el, len, fail_at: (len / 2).min(200) as u8 });
+                                a.push(Act::Slice { m, el, len, fail_at: 0, inner: Inner::Nothing });
+                                a.push(Act::Slice { m, el, len, fail_at: (len - 1).min(200) as u8, inner: Inner::Nothing });
+                                a.push(Act::Slice { m, el, len, fail_at: (len / 2).min(200) as u8, inner: Inner::Nothing });
                             }
                         }
                     }
@@ -503,7 +519,7 @@ impl ArenaModel {
                     a.push(Act::TryWith { fallible: false, ty: Ty::U64, ok: false, inner: Inner::Nothing, probe: false });
                     a.push(Act::TryWith { fallible: false, ty: Ty::B449, ok: false, inner: Inner::Nothing, probe: false });
                     a.push(Act::TryWith { fallible: true, ty: Ty::B449, ok: false, inner: Inner::AllocKeep, probe: false });
-                    a.push(Act::Slice { m: SM::InitTryFillWith, el: El::U64, len: 3, fail_at: 1 });
+                    a.push(Act::Slice { m: SM::InitTryFillWith, el: El::U64, len: 3, fail_at: 1, inner: Inner::Nothing });
                     a.push(Act::Reset { probe: false });
                     a.push(Act::SetLimit { some: true, val: held_usable + 448 });
                     a.push(Act::SetLimit { some: false, val: 0 });
